@@ -1102,7 +1102,10 @@ pub fn main(a: &Args) {
     while i < n && rep.elapsed() < a.max_s {
         let big = i % 5 == 4;
         let o = if big { BnfOpts { max_nt: 5, max_t: 4, max_alts: 3, max_len: 4, ..opts } } else { opts };
-        let g = if i % 5 == 3 {
+        let g = if prop == "C03" && i % 10 == 9 {
+            rep.count("ambiguous_prefix_nullable_tail_grammars", 1);
+            gen_amb_tails(&mut rng)
+        } else if i % 5 == 3 {
             gen_ctx(&mut rng)
         } else if i % 10 == 1 {
             rep.count("lists_family_grammars_generated", 1);
